@@ -559,6 +559,7 @@ func (j *packedJob) runCase(i int) {
 	r.Count("restarts_diskpacked", 1)
 	r.Note("restarts", "diskpacked/"+st.kind)
 	r.Note("crash_points_diskpacked", st.kind)
+	r.Note("crash_states_diskpacked", strings.TrimPrefix(st.kind, "pl-"))
 	r.Note("index_kinds", j.idxKind)
 	switch {
 	case st.kind == "torn-header":
@@ -572,15 +573,17 @@ func (j *packedJob) runCase(i int) {
 	}
 	if strings.HasPrefix(st.kind, "pl-") {
 		r.Count("power_loss_only_states", 1)
+		r.Note("state_classes", "power-loss-only")
 	} else {
 		r.Count("order_consistent_states", 1)
+		r.Note("state_classes", "order-consistent")
 	}
 	r.Distinct(j.store + "|" + j.h.ID + "|" + st.kind + "|" + st.off)
 	if o.violations == 0 {
 		r.Count("cases_held", 1)
 	}
-	if i == 5 {
-		r.Sample(map[string]any{"case": info, "continued_with": o.trace})
+	if i >= 5 || i == len(j.states)-1 {
+		sampleFirst(r, "diskpacked-"+strings.SplitN(st.kind, "-", 2)[0], map[string]any{"case": info, "continued_with": o.trace})
 	}
 }
 
